@@ -136,11 +136,27 @@ theorem pe_ensureSigchld (st : St) : PendExt st (ensureSigchld st) := by
   · exact (pe_watchSignal _ _ _ _).trans (PendExt.of_eq rfl)
 
 
+theorem pe_setNotify (st : St) (a : Nat) (n : Option Nat) : PendExt st (setNotify st a n) := by
+  unfold setNotify
+  exact pe_setW st a { st.getW a with notify := n }
+
+theorem pe_linkNotified (r : St × Nat) (a : Nat) (flags : Nat) : PendExt r.1 (linkNotified r a flags) := by
+  unfold linkNotified
+  exact ((pe_setNotify r.1 a (some r.2)).trans (pe_insertWatch _ _ _ _)).trans (pe_with_procs _ _)
+
+theorem pe_clearNotify (st : St) (a : Nat) : PendExt st (clearNotify st a) := by
+  unfold clearNotify
+  split
+  · exact pe_setNotify st a none
+  · exact PendExt.refl _
+
 theorem pe_linkProcess (st : St) (a : Nat) (pid : Int) (flags : Nat) : PendExt st (linkProcess st a pid flags) := by
   unfold linkProcess
   simp only []
   split
-  · exact ((pe_waitpid _ _).trans (pe_setWstatus _ _ _)).trans (pe_watchLater _ _ _ _)
+  · split
+    · exact (((pe_waitpid _ _).trans (pe_setWstatus _ _ _)).trans (pe_watchLater _ _ _ _)).trans (pe_linkNotified _ _ _)
+    · exact ((pe_waitpid _ _).trans (pe_setWstatus _ _ _)).trans (pe_watchLater _ _ _ _)
   · exact ((pe_waitpid _ _).trans (pe_insertWatch _ _ _ _)).trans (pe_with_procs _ _)
 
 
@@ -202,8 +218,8 @@ theorem pe_laterPre (st : St) (a : Nat) : PendExt st (laterPre st a) := by
   · exact (pe_setW _ _ _)
   · exact PendExt.refl _
 
-theorem pe_watchCancel (st : St) (a : Nat) : PendExt st (watchCancel st a) := by
-  unfold watchCancel
+theorem pe_watchCancel0 (st : St) (a : Nat) : PendExt st (watchCancel0 st a) := by
+  unfold watchCancel0
   split
   · exact PendExt.refl st
   · split
@@ -218,6 +234,14 @@ theorem pe_watchCancel (st : St) (a : Nat) : PendExt st (watchCancel st a) := by
             · exact PendExt.refl st
           · exact pe_cancelFound st a _ _
 
+
+theorem pe_watchCancel (st : St) (a : Nat) : PendExt st (watchCancel st a) := by
+  unfold watchCancel
+  split
+  · split
+    · exact (pe_watchCancel0 st a).trans (pe_watchCancel0 _ _)
+    · exact pe_watchCancel0 st a
+  · exact pe_watchCancel0 st a
 
 theorem pe_with_slots (st : St) (l : List SlotRec) : PendExt st { st with slots := l } := PendExt.of_eq rfl
 
@@ -417,7 +441,7 @@ theorem pe_processNotify (st : St) (a : Nat) : PendExt st (processNotify st a) :
   unfold processNotify
   split
   · exact (pe_fail _ _)
-  · exact pe_invokeWatch _ _ _ _
+  · exact (pe_clearNotify _ _).trans (pe_invokeWatch _ _ _ _)
 
 
 theorem pe_laterCb (st : St) (a : Nat) : PendExt st (laterCb st a) := by
